@@ -17,7 +17,7 @@ pub struct C08 {
     pub threads_only: bool,
 }
 
-const LANGS: &[&str] = &["mini", "json", "arith", "indent", "heredoc"];
+const LANGS: &[&str] = &["mini", "json", "arith", "indent", "heredoc", "alias"];
 
 struct Handle {
     tree: Tree,
@@ -143,7 +143,7 @@ impl Check for C08 {
         if self.threads_only {
             vec![("threads>=8", 0.15)]
         } else {
-            vec![("kind:family", 0.5), ("kind:threads", 0.15), ("family:sharing>=100", 0.2)]
+            vec![("kind:family", 0.5), ("kind:threads", 0.15), ("family:sharing>=100", 0.15)]
         }
     }
     fn jobs(&self) -> Option<usize> {
@@ -154,7 +154,7 @@ impl Check for C08 {
         c07::install_allocator();
         c07::live_clear();
         let _ = c07::take_unknown_frees();
-        let lname = LANGS[t.weighted(&[35, 20, 15, 18, 12])];
+        let lname = LANGS[t.weighted(&[30, 15, 12, 16, 10, 17])];
         let lang = lang::zoo(lname);
         let class = match t.weighted(&[40, 20, 40]) {
             0 => DocClass::Sentence,
